@@ -22,6 +22,8 @@ sys.path.insert(0, ROOT)
 sys.path.insert(0, REPO)
 
 from pyvc import api  # noqa: E402
+import logging  # noqa: E402
+logging.disable(logging.CRITICAL)
 
 
 def load_sidecars(prop):
